@@ -17,7 +17,7 @@ from ..build import Ctx, HarnessError, exn_term, from_py, to_py
 from ..corr import HEADER, Oracles, drive, subvalues
 from ..lang import N, P, Some, coq, freeze, from_json, to_json
 
-HDR = HEADER.replace("Corr.Check.", "Corr.Check Model.Signature.")
+HDR = HEADER.replace("Corr.Check.", "Corr.Check Model.Signature Corr.SigCheck.")
 KINDS = ["PosOnly", "PosOrKw", "VarPos", "KwOnly", "VarKw"]
 PK = {"PosOnly": inspect.Parameter.POSITIONAL_ONLY, "PosOrKw": inspect.Parameter.POSITIONAL_OR_KEYWORD,
       "VarPos": inspect.Parameter.VAR_POSITIONAL, "KwOnly": inspect.Parameter.KEYWORD_ONLY,
@@ -334,8 +334,8 @@ def model_line(c: SigCase) -> Tuple[str, str]:
     classes = coq(c.ctx.ct.coq())
     env = f"(mk_env {classes} [] oracle_tbl re_tbl email_tbl case_tbl)"
     m = "Async" if c.deco["is_async"] else "Sync"
-    lhs = f"(wrap_trace (run {env} {m} 80%nat) (mk_tables {coq(deco_term(c))}) {coq(c.body_seen)} {coq(c.args_seen)} {coq(c.kwargs_seen)})"
-    return lhs, f"({coq(c.obs)} : option (list pyval * list (nat * pyval)) * wres)"
+    lhs = f"(canon_trace (wrap_trace (run {env} {m} 80%nat) (mk_tables {coq(deco_term(c))}) {coq(c.body_seen)} {coq(c.args_seen)} {coq(c.kwargs_seen)}))"
+    return lhs, f"(canon_trace ({coq(c.obs)} : option (list pyval * list (nat * pyval)) * wres))"
 
 
 def oracles_for(chunk: List[SigCase]) -> Oracles:
